@@ -399,12 +399,14 @@ def plan(tier):
     for n in range(1, N + 1):
         t.append({'kind': 'nbits', 'n': n})
     if tier == 'thorough':
-        for n in (17, 18, 19, 20):
+        for n in (17, 18):
             t.append({'kind': 'nbits', 'n': n, 'lite': True})
-    wmax = 5 if tier == 'quick' else 6
-    for n in range(1, wmax + 1):
+    for n in range(1, 6):
         for first in range(4):
             t.append({'kind': 'weighted', 'n': n, 'first': first, 'alpha': 4})
+    if tier == 'thorough':
+        for first in range(3):
+            t.append({'kind': 'weighted', 'n': 6, 'first': first, 'alpha': 3})
     for n in range(6 if tier == 'quick' else 7, (9 if tier == 'quick' else 11)):
         for first in range(2):
             t.append({'kind': 'weighted', 'n': n, 'first': first, 'alpha': 2})
@@ -433,7 +435,7 @@ def describe(tier):
         'all host input assignments, value identity, distinct levels, fresh gates only, host untouched, no XOR/NXOR in AIG, '
         'documented gate-count bound. distinct = distinct configuration classes.',
         'bounds': {'quick': 'n_bits n<=14; weights {0..3}^n n<=5, {0,1}^n n<=8; adders widths<=5, shift<=7; pow2_m1 n<=30',
-                   'thorough': 'n_bits n<=16 (+17..20 H0 XAIG/AIG); weights {0..3}^n n<=6, {0,1}^n n<=10; adders widths<=7, shift<=9; pow2_m1 n<=48'}[tier],
+                   'thorough': 'n_bits n<=16 (+17, 18 H0 XAIG/AIG); weights {0..3}^n n<=5, {0,1,2}^6, {0,1}^n n<=10 (plain and non-input hosts from 6 operands on); adders widths<=7, shift<=9; pow2_m1 n<=48'}[tier],
         'exhaustive': True,
         'assumptions': ['vmc.refmodel evaluator; for hosts H2/folded the operand values are those reachable from the host inputs (stated alphabet)'],
     }
@@ -476,7 +478,7 @@ def run_task(task, acc):
                 for naive in (False, True):
                     check_weighted(acc, w, b, naive)
                     if b in ('XAIG', 'AIG', 'str:AIG'):
-                        for htag, c, ops in hosts_for(n, ('H0', 'H1', 'SAT', 'ODD') if n > 2 else ('H0', 'H1', 'H2', 'SAT', 'ODD')):
+                        for htag, c, ops in hosts_for(n, ('H0', 'H1') if n >= 6 else ('H0', 'H1', 'SAT', 'ODD') if n > 2 else ('H0', 'H1', 'H2', 'SAT', 'ODD')):
                             check_weighted(acc, w, b, naive, htag, c, ops)
         acc.sample({'fn': 'add_sum_n_weighted_bits', 'weights': [task['first']] * n, 'basis': 'str:AIG', 'host': 'H1'})
         return
